@@ -51,9 +51,28 @@ Theorem C08_error_identity : forall e got,
 Proof. exact full_err_is. Qed.
 Print Assumptions C08_error_identity.
 
-(* Not yet proved (stated for visibility): the cut inside the
-   remaining-length field. The correspondence suite and the oracle cover
-   every cut offset including those. *)
+(* The first byte arrives and the stream ends or fails inside the
+   remaining-length field: after 0 to 3 continuation bytes (any delivery of
+   those bytes). Nil packet, the reader's error (io.EOF stays io.EOF:
+   vbint.ReadFrom asks for one byte at a time). Together with
+   C08_cut_at_boundary and C08_cut_in_body this covers every proper prefix
+   of a frame. *)
+Theorem C08_cut_in_header : forall b0 cs rest s p e tail,
+  forallb cont cs = true -> (length cs <= 3)%nat ->
+  sbytes s = b0 :: cs ++ rest -> avail (1 + len cs) s = true ->
+  sdrop (1 + len cs) s = failing p e tail -> quietlast p e = true -> sbytes p = [] ->
+  exists r, read_packet s = RP r /\ r_pkt r = None /\
+            r_err r = Some (full_err e []) /\ r_got r = b0 :: cs.
+Proof. exact read_packet_cut_header. Qed.
+Print Assumptions C08_cut_in_header.
+
+(* a packet is returned only if every byte of its frame was delivered:
+   the bytes obtained from the reader are a whole frame *)
+Theorem C08_packet_needs_frame : forall s r,
+  read_packet s = RP r -> r_pkt r <> None ->
+  exists b0 hdr body, r_got r = b0 :: hdr ++ body /\ wf_vb hdr = true /\ len body = vb_value hdr.
+Proof. exact read_packet_got_frame. Qed.
+Print Assumptions C08_packet_needs_frame.
 
 Example C08_example :
   (* 30 05 00 01 74 aa bb cut after 4 bytes, then a transport error 7 *)
